@@ -7,7 +7,9 @@ import (
 	"strings"
 
 	dtpb "github.com/google/fhir/go/proto/google/fhir/proto/r4/core/datatypes_go_proto"
+	"github.com/verily-src/fhirpath-go/fhirpath"
 	"github.com/verily-src/fhirpath-go/fhirpath/evalopts"
+	"github.com/verily-src/fhirpath-go/internal/fhir"
 	"github.com/verily-src/fhirpath-go/fhirpath/verifharness/core"
 	"github.com/verily-src/fhirpath-go/fhirpath/verifharness/fx"
 	"github.com/verily-src/fhirpath-go/fhirpath/verifharness/gen"
@@ -25,7 +27,11 @@ func init() {
 		Rule: "all 146 resource type names x ids/versions over the FHIR id alphabet (length 1..64, plus empty, 65 and illegal characters) x service base URLs {none, http/https, port, nested path, trailing slash} x forms {relative, versioned, absolute, fragment, '#', URN uuid/oid, canonical with |version and #fragment, ''} and byte-mutated neighbours: format->parse returns the components; parse->format->parse is a fixpoint (identical to the input without redundant slashes); rejected strings give errors, never a panic; strong (typed) and weak (uri) references naming one resource give equal LiteralInfo/Identity, reference.Is = true and the same FHIRPath `reference` string; weak references carrying Reference.type (consistent, inconsistent, absent; on REST URLs, URNs and fragments) parsed in sequence on one uri with the bare string re-parsed in between (what is parsed from a reference depends on that reference alone); Is is reflexive/symmetric/transitive on generated triples; canonical url|version#fragment splits and reassembles unchanged. distinct_nontrivial = distinct (form, type, base-url class, id class, version present) cases",
 		Assumptions: []string{"an absolute URL whose path does not match Type/id[/_history/v] may be accepted as a non-REST URI or rejected; it must never yield an identity"},
 		Run:    runC19,
-		Checks: map[string]func(*core.Env, []json.RawMessage){"uri": replayC19URI, "ref": replayC19Ref, "canon": replayC19Canon, "weak": replayC19Weak},
+		Checks: map[string]func(*core.Env, []json.RawMessage){"uri": replayC19URI, "ref": replayC19Ref, "canon": replayC19Canon, "weak": replayC19Weak, "fragread": func(env *core.Env, a []json.RawMessage) {
+			var f string
+			json.Unmarshal(a[0], &f)
+			c19FragmentRead(env, f)
+		}},
 		Threshold: func(m *core.Merged) []string {
 			var r []string
 			for _, k := range []string{"form:relative", "form:versioned", "form:absolute", "form:fragment", "form:urn", "form:rejected", "form:empty", "strong-weak", "is-law", "canonical", "fhirpath-reference", "typed-constructor", "mutated", "weak-typed"} {
@@ -452,6 +458,57 @@ func replayC19Canon(env *core.Env, a []json.RawMessage) {
 	c19Canon(env, u, v, f)
 }
 
+// c19FragmentRead: the FHIRPath `reference` element of a fragment reference reads back the literal that
+// LiteralInfoOf formats, whichever oneof member (explicit fragment, or uri holding "#...") carries it.
+func c19FragmentRead(env *core.Env, frag string) {
+	defer env.In("fragread", frag)()
+	env.Case()
+	env.Cover("fhirpath-reference-fragment")
+	want := "#" + frag
+	forms := map[string]*dtpb.Reference{
+		"fragment-member": {Reference: &dtpb.Reference_Fragment{Fragment: &dtpb.String{Value: frag}}},
+		"uri-member":      {Reference: &dtpb.Reference_Uri{Uri: &dtpb.String{Value: want}}},
+		"fragment-member-with-display": {Reference: &dtpb.Reference_Fragment{Fragment: &dtpb.String{Value: frag}}, Display: &dtpb.String{Value: "container"}},
+	}
+	for name, ref := range forms {
+		var lit *reference.LiteralInfo
+		var err error
+		out := env.Guard("LiteralInfoOf fragment", func() { lit, err = reference.LiteralInfoOf(ref) })
+		if out.Panicked || out.Dead {
+			env.Violatef("C19/panic@"+out.Site+"/fragment", "LiteralInfoOf(%s %q) panicked: %s", name, want, out.PanicMsg)
+			continue
+		}
+		if err != nil || lit == nil {
+			continue // (whether a literal is accepted is decided by the parse checks)
+		}
+		p := gen.StdPatient()
+		p.ManagingOrganization = ref
+		for _, q := range []struct {
+			src string
+			in  []fhir.Resource
+			eo  []fhirpath.EvaluateOption
+		}{
+			{"%r.reference", nil, []fhirpath.EvaluateOption{evalopts.EnvVariable("r", ref)}},
+			{"Patient.managingOrganization.reference", []fhir.Resource{p}, nil},
+			{"Patient.managingOrganization.children().where($this is string and $this.startsWith('#'))", []fhir.Resource{p}, nil},
+		} {
+			r := fx.Eval(env, q.src, q.in, nil, q.eo)
+			got := ""
+			ok := r.IsValue() && len(r.Raw) == 1
+			if ok {
+				s, isStr := r.Raw[0].(interface{ GetValue() string })
+				ok = isStr
+				if isStr {
+					got = s.GetValue()
+				}
+			}
+			if !ok || got != lit.URIString() || got != want {
+				env.Violatef("C19/fhirpath-reference/fragment", "%s %q: LiteralInfoOf formats %q but `%s` = %s", name, want, lit.URIString(), q.src, trunc(r.Short(), 80))
+			}
+		}
+	}
+}
+
 func c19ID(r *core.Rng, n int) string {
 	const al = "ABCDEFGHIJKLMNOPQRSTUVWXYZabcdefghijklmnopqrstuvwxyz0123456789-."
 	b := make([]byte, n)
@@ -464,7 +521,8 @@ func c19ID(r *core.Rng, n int) string {
 func runC19(env *core.Env) {
 	rng := env.Rng("c19")
 	types := gen.ResourceTypes()
-	bases := []string{"", "http://h.example", "https://h.example:8080", "http://h.example/a/b/fhir", "https://fhir.example.org/r4"}
+	bases := []string{"", "http://h.example", "https://h.example:8080", "http://h.example/a/b/fhir", "https://fhir.example.org/r4",
+		"https://healthcare.googleapis.com/v1/projects/my-proj/locations/us-central1/datasets/my_dataset/fhirStores/my_store/fhir", "http://h.example/base_1", "https://h.example/fhir.v4/r-4"}
 	n := 0
 	mine := func() bool { n++; return env.Mine(n) }
 	idLens := []int{1, 2, 8, 36, 63, 64}
@@ -522,9 +580,10 @@ func runC19(env *core.Env) {
 				c19URI(env, u, exp, false)
 			}
 			// byte-mutated neighbours: whatever happens, no panic and no wrong identity
+			mrng := rng.Fork("m") // (drawn by every worker alike)
 			if mine() {
 				env.Cover("mutated")
-				m := mutate(uri, rng.Fork("m"))
+				m := mutate(uri, mrng)
 				exp := c19Expect{Class: "reject-or-nonrest"}
 				c19Mutated(env, m, exp)
 			}
@@ -539,6 +598,11 @@ func runC19(env *core.Env) {
 	}
 	if mine() {
 		c19URI(env, "#", c19Expect{Class: "fragment", Frag: ""}, true)
+	}
+	for _, f := range []string{"", "a", "frag-1.2", "A.b-9"} {
+		if mine() {
+			c19FragmentRead(env, f)
+		}
 	}
 	for _, bad := range []string{"#a b", "#" + c19ID(rng, 65), "#é"} {
 		if mine() {
